@@ -7,7 +7,7 @@ def c16_gen(rng, tier):
     n = 0
     reps = budget(tier, 4, 24)
     for rep in range(reps):
-        for udp in ("plain", "tc", "silent", "garbage"):
+        for udp in ("plain", "tc", "silent", "garbage", "bigplain", "bigtc"):
             for tcp in ("reply", "close", "silent", "garbage"):
                 name = gens.rand_name(rng)
                 if rng.random() < 0.4:
@@ -33,9 +33,11 @@ def c16_oracle(line, res):
         return "reply id differs from the caller's id"
     f = gens.fields(line)
     r = gens.fields(res)
-    if f["udp"] == "tc" and r.get("tcpq") != "1":
+    if f["udp"] == "bigplain" and "res=U" not in res:
+        return "a large (2049..4096 octets) untruncated UDP reply was not returned to the caller: " + res
+    if f["udp"] in ("tc", "bigtc") and r.get("tcpq") != "1":
         return "TC on UDP but %s TCP attempts" % r.get("tcpq")
-    if f["udp"] != "tc" and r.get("tcpq") != "0":
+    if f["udp"] not in ("tc", "bigtc") and r.get("tcpq") != "0":
         return "no TC on UDP but a TCP attempt was made"
     if r.get("sameq") == "0":
         return "TCP leg carried a different query"
